@@ -13,7 +13,12 @@ HTML = [b"<a>&", b"x<y", b"p&q>"]
 UNICODE = ["\u00e9".encode(), "\u65e5\u672c\u8a9e".encode(), "\U0001F600".encode(), "a\u2028b".encode(), "\u2029".encode(),
            "\u00fc \u00df".encode(), "\u00a0nbsp".encode(), "\ufffdrep".encode()]
 LONG = [b"L" * 200, ("\u9577" * 60).encode()]
-SAFE_CLASSES = dict(ascii=ASCII, spaceq=SPACEQ, yamlish=YAMLISH, control=CONTROL, html=HTML, unicode=UNICODE, long=LONG)
+# ordinary names that look like something else to careless code: dots that are not "." / "..", and the field names of the
+# manifest and stage schemas (old and new), e.g. the `Contents` directory of a macOS bundle
+DOTTY = [b"report..final.txt", b"..hidden", b"x..", b"...", b"a.b..c", b".a.", b"..."]
+FIELDS = [b"Contents", b"Path", b"Checksum", b"IsDir", b"contents", b"path", b"checksum", b"is-dir", b"skip-cache", b"outputs", b"SkipCache"]
+SAFE_CLASSES = dict(ascii=ASCII, spaceq=SPACEQ, yamlish=YAMLISH, control=CONTROL, html=HTML, unicode=UNICODE, long=LONG, dotty=DOTTY,
+                    fields=FIELDS)
 
 UNSAFE = [b"\xff", b"a\xc3\x28", b"a\x7fb", b"n\xc2\x85l", b"c\xc2\x9f", b"\xef\xbf\xbe", b"\xef\xbb\xbfbom", b"\xed\xa0\x80", b"\xf8x"]
 
@@ -283,6 +288,10 @@ def pipeline_project(rng, cid, n, cyclic=False, tier="quick", all_edges=None, si
             args_in.append(sp)
         elif has_src and rng.random() < 0.85:
             sp = b"src/s%d.txt" % i
+            dirs_ = [j for j in range(n) if kinds[j] == "dir"]
+            if dirs_ and rng.random() < 0.2:
+                # a plain source in a directory whose NAME merely starts with the name of some stage's directory output
+                sp = outpath[rng.choice(dirs_)] + b"_cfg/p%d.txt" % i
             init.append(("file", sp, "g:%d:%d" % (rng.randrange(1000), rng.choice([0, 3, 40, 70000] if tier == "thorough" else [0, 3, 40]))))
             ins.append((sp, ""))
             args_in.append(sp)
